@@ -51,6 +51,11 @@ def configs(tier, seed):
     for l in range(5):
         for (K, M) in ([(2, 2), (3, 1)] if tier == "quick" else [(1, 1), (2, 2), (3, 1), (4, 3), (2, 4)]):
             out.append({"kind": "linear", "l": l, "K": K, "M": M})
+    # wide-range contracted s shell (tight core + valence primitives) next to a diffuse d / f shell: the repulsion
+    # integrals must not depend on the order in which the primitives are listed
+    for lp in (2, 3):
+        for first in ("s", "x"):
+            out.append({"kind": "ill-order", "lp": lp, "first": first})
     return out
 
 
@@ -119,9 +124,38 @@ def make_rewrites(depth_of, branch=None):
     return rewrites
 
 
+def ill_order(o, cfg):
+    from gbasis.integrals.electron_repulsion import electron_repulsion_integral
+    from gbasis.integrals.overlap import overlap_integral
+    from ..core import gshell
+
+    ex = (8000.0, 1200.0, 30.0, 0.4)
+    co = (0.05, 0.2, 0.5, 0.4)
+    cs = [tuple(hvec("c13-ill%d" % i, 3, -1.2, 1.2)) for i in range(2)]
+    ref = None
+    for perm, px in itertools.product(itertools.permutations(range(4)), ((0, 1), (1, 0))):
+        x = RefShell(cfg["lp"], cs[1], [(0.9, 0.12)[i] for i in px], [[(0.6, 0.5)[i]] for i in px], "cartesian")
+        s = RefShell(0, cs[0], [ex[i] for i in perm], [[co[i]] for i in perm], "cartesian")
+        shells = [s, x] if cfg["first"] == "s" else [x, s]
+        g = [gshell(t) for t in shells]
+        E = electron_repulsion_integral(g, notation="chemist")
+        S = overlap_integral(g)
+        o.call(2)
+        if ref is None:
+            ref = (E, S)
+            d = np.sqrt(np.abs(np.einsum("abab->ab", E)))
+            sc = d[:, :, None, None] * d[None, None, :, :]
+            continue
+        o.cmp("ERI independent of primitive order %s %s" % (perm, px), E, ref[0], 2e-6, sc, key="eri-primitive-order")
+        o.cmp("overlap independent of primitive order %s %s" % (perm, px), S, ref[1], 1e-12, 1.0, key="overlap-primitive-order")
+    return o
+
+
 def evaluate(cfg):
     gb()
     o = Obs(cfg)
+    if cfg["kind"] == "ill-order":
+        return ill_order(o, cfg)
     if cfg["kind"] == "bfs":
         quick = cfg.get("tier") == "quick"
         sh = subject(cfg)
